@@ -589,18 +589,22 @@ func specMidOK(m []upidSt) bool {
 //@   requires d != nil && len(d.components) < 4096 && len(d.mid) < 256 && len(d.upid) < 1<<12 && specMidOK(d.mid)
 //@   ensures fresh(result) && len(result) >= 11 && len(result) < 1<<21
 //@   ensures result[0] == 0x02 && result[2] == 0x43 && result[3] == 0x55 && result[4] == 0x45 && result[5] == 0x49
+//@   ensures result[6] == byte(d.eventID>>24) && result[7] == byte(d.eventID>>16) && result[8] == byte(d.eventID>>8) && result[9] == byte(d.eventID) && (result[10] >= 128) == d.eventCancelIndicator && result[10]%128 == 0x7f
+//@   ensures result[1] == byte(len(result)-2) && (d.eventCancelIndicator ==> len(result) == 11)
 //@   modifies nothing
 //@   loop 1 (rangeindex int, componentsBytes []byte, data []byte, eventData []byte)
 //@     invariant d != nil && -1 <= rangeindex && rangeindex < len(d.components) && len(d.components) < 4096
 //@     invariant fresh(componentsBytes) && 1 <= len(componentsBytes) && len(componentsBytes) <= 1+6*(rangeindex+1)
 //@     invariant fresh(data) && len(data) == 11 && fresh(eventData) && len(eventData) == 1 && verifSeparate(data, componentsBytes) && verifSeparate(data, eventData) && verifSeparate(eventData, componentsBytes)
 //@     invariant data[0] == 0x02 && data[2] == 0x43 && data[3] == 0x55 && data[4] == 0x45 && data[5] == 0x49
+//@     invariant data[6] == byte(d.eventID>>24) && data[7] == byte(d.eventID>>16) && data[8] == byte(d.eventID>>8) && data[9] == byte(d.eventID) && (data[10] >= 128) == d.eventCancelIndicator && data[10]%128 == 0x7f
 //@     decreases len(d.components) - rangeindex
 //@   loop 2 (rangeindex int, UpidData []byte, data []byte, eventData []byte)
 //@     invariant d != nil && -1 <= rangeindex && rangeindex < len(d.mid) && len(d.mid) < 256 && specMidOK(d.mid)
 //@     invariant fresh(UpidData) && 2 <= len(UpidData) && len(UpidData) <= 2+(2+(1<<12))*(rangeindex+1)
 //@     invariant fresh(data) && len(data) == 11 && fresh(eventData) && 1 <= len(eventData) && len(eventData) <= 7+6*4096 && verifSeparate(data, UpidData) && verifSeparate(data, eventData) && verifSeparate(eventData, UpidData)
 //@     invariant data[0] == 0x02 && data[2] == 0x43 && data[3] == 0x55 && data[4] == 0x45 && data[5] == 0x49
+//@     invariant data[6] == byte(d.eventID>>24) && data[7] == byte(d.eventID>>16) && data[8] == byte(d.eventID>>8) && data[9] == byte(d.eventID) && (data[10] >= 128) == d.eventCancelIndicator && data[10]%128 == 0x7f
 //@     decreases len(d.mid) - rangeindex
 
 // specDescsAllOK: every entry of the descriptor list is one of the library's descriptors, of encodable size.
